@@ -70,6 +70,7 @@ struct Acc {
     viol: Vec<(u64, Violation)>,
     invalid: u64,
     hashes: Vec<(u64, u64, String)>,
+    main_hists: Vec<(u64, u64)>,
     batch_hash: u64,
     evals: u64,
 }
@@ -272,6 +273,9 @@ pub fn run(prop: &dyn Prop, o: &Opts) -> i32 {
                     if dump_hashes {
                         a.hashes.push((i, out.hist, out.violation.as_ref().map(|v| v.sig()).unwrap_or_default()));
                     }
+                    if hermetic && i < crate::props::MAIN_HISTS_MAX {
+                        a.main_hists.push((i, out.hist));
+                    }
                     if o.only_hash {
                         continue;
                     }
@@ -302,6 +306,7 @@ pub fn run(prop: &dyn Prop, o: &Opts) -> i32 {
         m.viol.extend(a.viol);
         m.invalid += a.invalid;
         m.hashes.extend(a.hashes);
+        m.main_hists.extend(a.main_hists);
         m.batch_hash = m.batch_hash.wrapping_add(a.batch_hash);
         m.evals += a.evals;
     }
@@ -318,6 +323,8 @@ pub fn run(prop: &dyn Prop, o: &Opts) -> i32 {
     }
     let mut extra: Vec<(Scenario, Violation)> = vec![];
     if !o.only_hash {
+        m.main_hists.sort();
+        *crate::props::MAIN_HISTS.lock().unwrap() = Some(std::mem::take(&mut m.main_hists));
         for sc in prop.post_batch(o.seed, total, o.tier) {
             let out = exec_hermetic(prop, &sc);
             m.evals += 1;
